@@ -400,10 +400,16 @@ def expectErrors (items : List Item) : List XErr :=
     | some mm => rules.any fun (s, rm) => decide (rm ≠ some mm) && (allSimples s).contains t
   (if cross then [.crossMedia] else []) ++ (if missing then [.missingTarget] else [])
 
+/-- some extension's target occurs in the extender selector of an extension (chain or cycle) -/
+def hasChain (items : List Item) : Bool :=
+  let exts : List (SelList × Simple) := extPairs items
+  exts.any fun (_, t) => exts.any fun (e, _) => (allSimples e).contains t
+
 def handle : List String → String
   | "expect" :: rest =>
     match parseItems rest with
-    | some items => "ok" ++ String.join ((expectErrors items).map fun e => " " ++ xerrStr e)
+    | some items => "ok" ++ String.join ((expectErrors items).map fun e => " " ++ xerrStr e) ++
+        (if hasChain items then " chain" else "")
     | none => "unsupported"
   | "run" :: a :: b :: c :: rest =>
     match parseBool? a, parseBool? b, parseBool? c with
@@ -432,6 +438,8 @@ def handle : List String → String
           verdict u (fun p => matchesList O p || cList cr S p) (fun p => matchesList O p == cList cr S p)
         else if mode == "sub" then
           verdict u (fun p => matchesList O p) (fun p => cList cr S p)
+        else if mode == "sup" then
+          verdict u (fun p => cList cr S p) (fun p => matchesList O p)
         else if mode == "law" then
           verdict u (fun p => matchesList S p) (fun p => matchesList O p)
         else "bad-op"
@@ -441,15 +449,15 @@ def handle : List String → String
     match decodeSel out with
     | some l => "ok " ++ boolStr (!hasPlaceholder l)
     | none => "unsupported"
-  | ["specific", ext, out] =>
-    -- generated selectors are at least as specific as their extender: every complex of `out`
-    -- whose simples include all simples of some extender complex has specificity ≥ that extender's
-    match decodeSel ext, decodeSel out with
-    | some E, some O =>
-      let bad := O.any fun x => E.any fun e =>
-        (simplesOf e).all (fun s => (simplesOf x).contains s) && decide ((specComplex x).2 < (specComplex e).1)
+  | "specific" :: orig :: out :: exts =>
+    -- second law: every complex of `out` that is not one of the rule's own complexes is at least as
+    -- specific as some extender complex of the stylesheet
+    match decodeSel orig, decodeSel out, exts.mapM decodeSel with
+    | some S, some O, some Es =>
+      let es := Es.flatMap id
+      let bad := O.any fun x => !S.contains x && !es.any fun e => decide ((specComplex x).2 ≥ (specComplex e).1)
       "ok " ++ boolStr (!bad)
-    | _, _ => "unsupported"
+    | _, _, _ => "unsupported"
   | _ => "bad-op"
 
 end Grass.Extend
